@@ -471,6 +471,17 @@ def make_on_outcomes(fname, fields, statuses, tol_names=('FEASTOL', 'ABSTOL',
                 continue
             d = st.heap[v.oid].f['items']
             line = st.heap[v.oid].meta.get('site', 0)
+            for src, ms, l0 in st.ghost.get('start_ms', ()):
+                # documented: a start point must be strictly inside the cone
+                # (s > 0, z > 0 in the cone order), i.e. max_step < 0; a
+                # point on the boundary makes compute_scaling divide by zero
+                ex.oblige(st, 'start-point-interior', ms < 0, None,
+                          'a start point copied from %s is accepted only if '
+                          'it lies strictly inside the cone: misc.max_step '
+                          'of it (line %s) is negative on every path that '
+                          'returns a result' % (src, l0),
+                          extra={'prop': 'C10'})
+                st.obligs[-1].line = l0 or 0
             check_options_source(ex, st, fid0, fname)
             for status, st2 in status_cases(ex, st, d.get('status'),
                                             statuses):
